@@ -280,7 +280,7 @@ def r2_set_order(ctx):
         if kind == "slice" and f is not sorter and not discharged:
             # a tail slice handed to the same consumer that also takes [0] is the same construct
             key_kind = "index"
-        key = f"{f.key}:{name}:{key_kind}"
+        key = f"{f.key}:{key_kind}"
         if key in seen:
             continue
         seen[key] = True
